@@ -6,7 +6,7 @@ use it meanwhile.  usage: seedmatrix.py [tier] [seed-name ...]"""
 import json, os, re, subprocess, sys, time
 V = os.path.dirname(os.path.dirname(os.path.abspath(__file__)))
 EXTRA = {"C01-2": ["C05", "C17"], "C17-2": ["C05"], "C08-1": ["C07"], "C08-2": ["C07"], "C09-1": ["C10"], "C09-2": ["C10"],
-         "C10-2": ["C09"], "C10-3": ["C09"], "C20-3": ["C02"], "C05-1": ["C01"], "C19-3": ["C15"], "C15-2": ["C19"]}
+         "C10-2": ["C09"], "C10-3": ["C09"], "C10-9": ["C09"], "C10-7": ["C09"], "C20-3": ["C02"], "C05-1": ["C01"], "C19-3": ["C15"], "C15-2": ["C19"]}
 tier = sys.argv[1] if len(sys.argv) > 1 else "quick"
 names = sys.argv[2:] or sorted(d for d in os.listdir(os.path.join(V, "seeded")) if re.match(r"C\d\d-\d$", d))
 rows = []
